@@ -852,6 +852,11 @@ func run(c *core.Ctx) {
 				continue
 			}
 			for kind := 0; kind < 6; kind++ {
+				// quick tier: the long inputs alternate between the value kinds from one
+				// length to the next instead of running all six (the oracle dominates the time)
+				if c.Quick() && n > 130 && (kind+n)%3 != 0 {
+					continue
+				}
 				for _, enc := range []string{"dbp32", "dbp64", "plain32", "plain64", "bss32", "bss64"} {
 					bits := 64
 					if strings.HasSuffix(enc, "32") {
